@@ -272,10 +272,38 @@ def judge(text: str, data: T.Mapping[str, T.Any], fmt: str, markers: T.Mapping[s
     return found
 
 
+def context_findings(case: dict, real: T.Tuple[str, T.Any, T.Any, T.List[str]], tally: Tally) -> T.List[T.Tuple[str, dict]]:
+    """Consistency where the documents are silent (and everywhere else): the formats are line based
+    ("put a line like this in your configuration file"), so what becomes of a line is a function of that line,
+    the data and the format - not of the other lines of the template.  Every line containing '#' (directive-like,
+    at most 4) and now and then one other line is configured again as a one-line template; the result must be
+    the text it got inside the whole template.  No particular outcome is demanded."""
+    status, out, _missing, lines = real
+    if status != 'ok' or len(lines) < 2:
+        return []
+    picks = [i for i, l in enumerate(lines) if '#' in l][:4]
+    if len(case['text']) % 8 == 0:
+        j = len(case['text']) % len(lines)
+        if j not in picks:
+            picks.append(j)
+    found: T.List[T.Tuple[str, dict]] = []
+    for i in picks:
+        tally.add('monitor:line-context-independence')
+        alone = run_real(lines[i], case['data'], case['fmt'])
+        if alone[0] == 'ok' and len(alone[1]) == 1 and alone[1][0] == out[i]:
+            continue
+        found.append(('line-treatment-depends-on-other-lines',
+                      {'line': lines[i], 'inside_the_template': out[i],
+                       'as_a_one_line_template': alone[1] if alone[0] == 'ok' else [alone[0], alone[1]]}))
+        break
+    return found
+
+
 def mechanisms_of(case: dict) -> T.List[T.Tuple[str, dict]]:
     t = Tally()
     real = run_real(case['text'], case['data'], case['fmt'])
-    return judge(case['text'], case['data'], case['fmt'], case.get('markers') or {}, real, t)
+    return judge(case['text'], case['data'], case['fmt'], case.get('markers') or {}, real, t) + \
+        context_findings(case, real, t)
 
 
 # ------------------------------------------------------------------------------------------------
@@ -367,7 +395,8 @@ def do_case(bag: Bag, case: dict, mode: str = 'inproc') -> T.Tuple[str, T.Any, T
     real = run_real(case['text'], case['data'], case['fmt'])
     bag.cases += 1
     bag.lines += len(real[3])
-    for mech, detail in judge(case['text'], case['data'], case['fmt'], case.get('markers') or {}, real, bag.tally):
+    for mech, detail in judge(case['text'], case['data'], case['fmt'], case.get('markers') or {}, real, bag.tally) + \
+            context_findings(case, real, bag.tally):
         w = {'mode': mode, 'fmt': case['fmt'], 'text': case['text'], 'data': case['data'],
              'markers': case.get('markers') or {}, 'detail': detail}
         bag.note(mech, w, case)
@@ -1314,7 +1343,7 @@ def main() -> int:
         ('monitor:scanner-equality', 10000), ('monitor:copy-through', 10000), ('monitor:no-rescan', 2000),
         ('monitor:line-ending', 10000), ('monitor:missing-set', 2000), ('monitor:define-render', 1000),
         ('monitor:define-line-ending', 1000), ('monitor:file-output-equals', 100), ('monitor:missing-warning', 100),
-        ('monitor:header-keys', 30), ('monitor:sequence-steps', 100), ('monitor:sequence-steps-in-a-family-of-copies', 50), ('monitor:history-output-current', 200),
+        ('monitor:header-keys', 30), ('monitor:sequence-steps', 100), ('monitor:line-context-independence', 2000), ('monitor:sequence-steps-in-a-family-of-copies', 50), ('monitor:history-output-current', 200),
         ('contract:do_conf_str:confstr_line_count_preserved', 1000),
         ('contract:do_replacement_meson:repl_meson_agrees_with_scanner', 10000),
         ('contract:do_define_meson:define_has_documented_form', 500),
